@@ -37,7 +37,7 @@ func init() {
 
 const (
 	liveCloseWindow = 1 * time.Second
-	liveCaseTimeout = 20 * time.Second
+	liveCaseTimeout = 8 * time.Second
 	liveMaxCalls    = 200
 )
 
@@ -360,9 +360,9 @@ func liveComponent(r *hx.Run) {
 	rec(nil)
 
 	// 2. random scripts, every kind of cancel
-	nRand := 40
+	nRand := 150
 	if thorough {
-		nRand = 400
+		nRand = 1500
 	}
 	for j := 0; j < nRand; j++ {
 		np := 1 + r.Rng.Intn(4)
